@@ -248,8 +248,13 @@ func NewLogger(filename string, rule RotateRule, compress bool) (*RotateLogger, 
 
 // Write 将 data 写入轮换日志。
 func (l *RotateLogger) Write(data []byte) (int, error) {
+	// 写入是异步的，而 io.Writer 不得保留 data：调用方（如 fmt.Fprint 的内部缓冲区）
+	// 在 Write 返回后会复用它，所以入队的是一份拷贝。
+	buf := make([]byte, len(data))
+	copy(buf, data)
+
 	select {
-	case l.channel <- data:
+	case l.channel <- buf:
 		return len(data), nil
 	case <-l.done:
 		log.Println(string(data))
